@@ -94,9 +94,10 @@ func (r *FecInterceptor) BindLocalStream(
 
 			var fecPackets []rtp.Packet
 			stream.mu.Lock()
+			// The packets are encoded later, when the caller owns its header and payload again.
 			stream.packetBuffer = append(stream.packetBuffer, rtp.Packet{
-				Header:  *header,
-				Payload: payload,
+				Header:  header.Clone(),
+				Payload: append([]byte(nil), payload...),
 			})
 
 			// Check if we have enough packets to generate FEC
